@@ -94,6 +94,26 @@ let canon (s : string) : string =
     if starts_with "PANIC" part then "PANIC"
     else if starts_with "new=PANIC" part then "new=PANIC" else part) (split_semis s))
 
+(* names / text keys: id and id+1000 are the same string in the other letter case (harness convention);
+   for the model they are simply different names *)
+let flip_case (n : z) : z = let i = int_of_z n in z_of_int (if i >= 1000 then i - 1000 else i + 1000)
+
+let case_stats (d : desc) (o : op) : unit =
+  let n = (match o with OpSet (n, _) -> n | OpText (n, _) -> n) in
+  (match find_ref d.refs n, find_ref d.refs (flip_case n) with
+   | None, Some _ -> count "case:name-only-in-other-case"
+   | Some _, Some _ -> count "case:twin-names-addressed"
+   | _ -> ());
+  match o with
+  | OpText (_, t) ->
+      (match find_ref d.refs n with
+       | Some (_, def) ->
+           (match def.d_texts with
+            | Some texts -> if assoc texts t = None && assoc texts (flip_case t) <> None then count "case:text-only-in-other-case"
+            | None -> ())
+       | None -> ())
+  | _ -> ()
+
 let model_line (d : desc) (ops : op list) : string =
   match prm_new d with
   | Panic _ -> "new=PANIC"
@@ -107,6 +127,7 @@ let model_line (d : desc) (ops : op list) : string =
         | o :: rest ->
             (match step d p o with
              | Ok (r, p') ->
+                 case_stats d o;
                  count (match r with
                         | SOk -> "set:ok:" ^ (match spec_expect d o with ExpAccept (_, dt, _) -> dt_kind dt | ExpReject -> "UNEXPECTED")
                         | SErr e -> "set:err:" ^ err_name e);
